@@ -3,6 +3,7 @@ import TypifyModel.Model.Render
 import TypifyModel.Model.Builder
 import TypifyModel.Model.Api
 import TypifyModel.Model.Conv
+import TypifyModel.Model.RoundTrip
 import TypifyModel.Driver.SchemaJson
 import TypifyModel.Generated.Derives
 import TypifyModel.Driver.IrJson
@@ -65,6 +66,20 @@ def evalValid (c : Case) (defName payload : String) : String :=
       | some false => "false"
       | none => "fuel"
 
+/-- ids reachable from `t` (closure under `childrenOf`) -/
+def reachable (σ : Space) (t : Id) : List Id :=
+  let rec go (fuel : Nat) (todo seen : List Id) : List Id :=
+    match fuel, todo with
+    | 0, _ => seen
+    | _, [] => seen
+    | n + 1, a :: rest =>
+      if seen.contains a then go n rest seen else
+      let kids := match σ.get a with
+        | some ent => RoundTrip.childrenOf ent.details
+        | none => []
+      go n (kids ++ rest) (a :: seen)
+  go (σ.entries.length * 8 + 64) [t] []
+
 def evalOp (c : Case) (op tyName payload : String) : String :=
   if op == "valid" then evalValid c tyName payload else
   let σ := c.space
@@ -116,6 +131,10 @@ def evalOp (c : Case) (op tyName payload : String) : String :=
            | some true => "true"
            | some false => "false"
            | none => "fuel")
+    | "rtok" =>
+      -- hypothesis of C03.de_se_de for this type: the reachable entries satisfy `entryOkB`
+      let S := reachable σ t
+      if RoundTrip.closedOkB σ S && S.contains t then "true" else "false"
     | "display" =>
       (match parseJson payload with
        | none => "badjson"
